@@ -140,6 +140,8 @@ def classify_function(ctx: Ctx, rep: Report, fn: FuncInfo, tabs):
                                   fn.short, norm(n.args[0]), ", ".join(bad_vals[:4])))
             if name in TOTAL or last in TOTAL_METHODS or name.startswith("logger."):
                 continue
+            if isinstance(n.func, ast.Name) and isinstance(getattr(__import__("builtins"), name, None), type) and issubclass(getattr(__import__("builtins"), name), BaseException):
+                continue      # building an exception object (returned by a helper, raised by its caller - judged at that raise)
             if last in VALUEERROR_ONLY or name in VALUEERROR_ONLY:
                 continue
             if name in ("unpack", "struct.unpack"):
